@@ -270,6 +270,7 @@ var c05Calls = map[string]bool{
 	"trimVT100": true, "uploadDragFiles": true, "downloadFiles": true, "uploadFiles": true,
 	"clientError": true, "cleanup": true, "background": true, "connectToTunnel": true, "newTransfer": true,
 	"setOneTimeUploadResult": true, "close": true, "recover": true, "Close": true,
+	"IsTransferringFiles": true, "checkPathsReadable": true,
 }
 
 type c05Sk struct{ b strings.Builder }
@@ -449,6 +450,7 @@ func genSkelFilter(s *src) string {
 		{"upload_drag_files", "TrzszFilter.uploadDragFiles"},
 		{"add_drag_files", "TrzszFilter.addDragFiles"},
 		{"reset_drag_files", "TrzszFilter.resetDragFiles"},
+		{"upload_files_api", "TrzszFilter.UploadFiles"},
 	} {
 		items := k.block(s, s.fn(fn.name).Body.List)
 		b.WriteString("Definition " + fn.coq + " : list sk :=\n  " + c05List(items) + ".\n\n")
